@@ -58,6 +58,14 @@ def mon_c09(world, kind):
             world.flag('record-for-pending-instance', site,
                        {'app': world.tmpl[a.name],
                         'stored_under': [s for s, _d in ent]})
+    if not world.undelivered:
+        scheduled = set(world.tree.find(z.SCHEDULED).children)
+        for (s, a) in dump:
+            if a in cell.apps and a not in scheduled:
+                # the model still knows an instance that is no longer in
+                # /scheduled although every notification was processed
+                world.flag('record-for-instance-not-in-scheduled', site,
+                           {'app': world.tmpl[a], 'server': s})
     for (s, a) in dump:
         if a not in cell.apps:
             world.flag('record-for-unscheduled-instance', site,
@@ -191,9 +199,14 @@ def mon_c01_zk(world, kind):
     for (s, a) in dump:
         where.setdefault(a, []).append(s)
         node = tree.find(z.path.scheduled(a))
-        if node is None or not node.data:
-            continue
-        manifest = json.loads(node.data.decode())
+        if node is not None and node.data:
+            manifest = json.loads(node.data.decode())
+        else:
+            # a record whose manifest is gone still claims the capacity the
+            # instance was created with (the harness knows its template)
+            manifest = world.cfg['templates'].get(world.tmpl[a])
+            if manifest is None:
+                continue
         per_server.setdefault(s, []).append(loader.resources(manifest))
     for a, servers in where.items():
         if len(servers) > 1:
@@ -233,11 +246,18 @@ def mon_c03_zk(world, kind):
         man = json.loads(man.data.decode())
         need = set(man.get('traits', []))
         part = '_default'
+        # the allocation is resolved from the stored /allocations record, not
+        # from the model: first assignment whose pattern matches the name
+        import fnmatch
+        hit = None
         for obj in allocs:
-            if app.allocation is not None and \
-                    '/'.join(app.allocation.path) == obj['name'].replace(':', '/'):
-                need |= set(obj.get('traits', []))
-                part = obj.get('partition') or '_default'
+            for asg in obj.get('assignments', []):
+                if hit is None and fnmatch.fnmatch(
+                        app.name, asg['pattern'] + '[#]' + '[0-9]' * 10):
+                    hit = obj
+        if hit is not None:
+            need |= set(hit.get('traits', []))
+            part = hit.get('partition') or '_default'
         world.stats['c03_zk_checks'] += 1
         if (rec.get('partition') or '_default') != part:
             world.flag('placed-on-server-recorded-in-other-partition',
